@@ -2286,7 +2286,13 @@ class Head(Expr):
             ]
             return type(self.frame)(*operands)
         if isinstance(self.frame, Head):
-            return Head(self.frame.frame, min(self.n, self.frame.n), self.npartitions)
+            # the inner head decides how many partitions of its input are looked at
+            # (``self.npartitions`` is the partition count of the result, always 1)
+            return Head(
+                self.frame.frame,
+                min(self.n, self.frame.n),
+                self.frame.operand("npartitions"),
+            )
 
     def _simplify_up(self, parent, dependents):
         from dask_expr import Repartition
